@@ -1,5 +1,6 @@
 """shared analysis of the drawing entry points (C01, C02, C08, C20): per orientation case the
 Display methods are interpreted with write_command kept abstract (its serialisation is C18)."""
+import os
 import exec as E
 import trace as TR
 from poly import Poly, ONE, ZERO, sym_int
@@ -19,6 +20,56 @@ def abstract_wc(F):
     return wc
 
 
+HVEC = "heapless::vec::Vec"
+
+
+def accumulator_templates(F):
+    """Houdini candidates for every crate struct that holds one heapless::Vec and some u16 fields (the row /
+    block accumulators of the batching pipeline), generated from the field types only - no names:
+    for ordered pairs (a, b) of u16 fields: b >= a and len == b - a + 1; for two disjoint pairs:
+    len == (b - a + 1) * (d - c + 1); each unguarded and guarded by every bool field (both polarities)."""
+    import itertools
+    out = {}
+    for a in F.adts.values():
+        if not a["id"].startswith(F.crate + "::") or a["kind"] != "struct":
+            continue
+        fs = a["variants"][0]["fields"]
+        vecs = [f["name"] for f in fs if f["ty"].get("k") == "adt" and f["ty"].get("def") == HVEC]
+        u16s = [f["name"] for f in fs if f["ty"].get("k") == "int" and str(f["ty"].get("bits")) == "16" and not f["ty"].get("signed")]
+        bools = [f["name"] for f in fs if f["ty"].get("k") == "bool"]
+        if len(vecs) != 1 or len(u16s) < 2:
+            continue
+
+        def gen(fields, vec=vecs[0], u16s=tuple(u16s), bools=tuple(bools)):
+            lv = fields[vec]
+            if not (isinstance(lv, Agg) and lv.fields and isinstance(lv.fields[0], IntV)):
+                return []
+            ln = lv.fields[0].poly()
+            guards = [None]
+            for b in bools:
+                bv = fields[b]
+                if isinstance(bv, BoolV):
+                    guards += [bv.p, ONE - bv.p]
+            cands = []
+            pairs = [(x, y) for x in u16s for y in u16s if x != y]
+            for g in guards:
+                for (x, y) in pairs:
+                    px, py = fields[x].poly(), fields[y].poly()
+                    cands.append((g, py - px))
+                    cands.append((g, ln - (py - px + 1)))
+                    cands.append((g, (py - px + 1) - ln))
+                for (x, y) in pairs:
+                    for (u, v) in pairs:
+                        if len({x, y, u, v}) < 4 or (x, y) > (u, v):
+                            continue
+                        area = (fields[y].poly() - fields[x].poly() + 1) * (fields[v].poly() - fields[u].poly() + 1)
+                        cands.append((g, ln - area))
+                        cands.append((g, area - ln))
+            return cands
+        out[a["id"]] = gen
+    return out
+
+
 def run_draw(R, F, rec, q, m, assume=None, args=None, no_merge=False):
     ex = R.executor(F)
     ex.abstract_defs = {abstract_wc(F)["id"]}
@@ -27,6 +78,8 @@ def run_draw(R, F, rec, q, m, assume=None, args=None, no_merge=False):
     # template invariants P_win: an accumulator that only ever holds sanitised coordinates stays
     # inside the logical bounds (Houdini over loops, transferred through merges)
     ex.templates = [lambda v, g=g: g.lw - 1 - v, lambda v, g=g: g.lh - 1 - v]
+    if os.environ.get("AIM_STRUCT_TEMPLATES") == "1":
+        ex.struct_templates = accumulator_templates(F)
     res = R.run_entry(ex, rec, init_mem=C.display_init_mem(ex, F, rec, q, m), assume=g.i_init() + (assume or []), args=args)
     return ex, g, res
 
